@@ -96,6 +96,10 @@ def check_record(rec):
         raise ValueError('alignment end beyond the largest reference length')
     if any(c not in SEQ_CODES for c in rec['seq']):
         raise ValueError('bad sequence letter')
+    qlen = sum(n for o, n in rec['cigar'] if o in QUERY_CONSUMING)
+    if rec['seq'] and rec['cigar'] and qlen != len(rec['seq']):
+        # SAMv1 1.4: "If not a '*', the length of the sequence must equal the sum of lengths of M/I/S/=/X operations"
+        raise ValueError('sequence length %d != query length of the CIGAR %d' % (len(rec['seq']), qlen))
     if rec['qual'] is not None:
         if len(rec['qual']) != len(rec['seq']) or any(not (0 <= q <= 93) for q in rec['qual']):
             raise ValueError('bad qualities')
